@@ -27,7 +27,7 @@ m = {
     "version": 1,
     "setup_cmd": "./setup.sh",
     "hooks": {"guard": "verif", "enable": "go build -tags verif (harness module replaces github.com/paulmach/osm => /repo)",
-              "baseline_off_cmd": "cd /repo && GOFLAGS=-mod=mod GOPROXY=off GOSUMDB=off go test -vet=off -count=1 ./...",
+              "baseline_off_cmd": "cd /repo && GOFLAGS=-mod=mod GOPROXY=off GOSUMDB=off go test -mod=mod -json -vet=off -count=1 -timeout 25m ./...",
               "source_commits": HOOK_COMMITS, "add_only": True},
     "engines": [
         {"name": "tlc+go-harness", "path": "/verif/check", "serves_properties": [c["property_id"] for c in checks],
